@@ -103,7 +103,11 @@ class C07(Check):
             'longer inputs; texts: generated CSS-like texts with/without @charset header x 13 encodings; chunking: '
             'all single and double cut positions for short inputs, random partitions for long ones. '
             'non-trivial = distinct (input, flag) whose answer is not the default utf-8/implicit, or a chunking '
-            'whose cut falls inside the BOM/@charset header or a multi-byte character')
+            'whose cut falls inside the BOM/@charset header or a multi-byte character. inner codecs: all byte strings of '
+            'length <=2 over 33 boundary bytes; boundary code points encoded in 10 codecs, with/without BOM, damaged 0-2 '
+            'times; EVERY composition into chunks for data <=6 (9) bytes, single/double/random cuts above; CSS codec over '
+            'the concrete codecs: CSS-like non-ASCII texts x 10 codecs x encoding none/right/other x force, random cuts and '
+            'one byte at a time')
 
     # ------------------------------------------------------------------------------------------
     def run(self, ctx):
